@@ -41,7 +41,7 @@ MINIMUMS = {
     'quick': {'evaluations': 3000, 'calls': 8000, 'af_nested_depth>=2': 150, 'override_of_factory_param': 100,
               'af_invocations_checked': 3000, 'passthrough_identity_checked': 2000, 'nested_partial_probed': 200,
               'failing_factory_calls': 100, 'concurrent_call_rounds': 100},
-    'thorough': {'evaluations': 60000, 'af_nested_depth>=2': 4000, 'override_of_factory_param': 4000},
+    'thorough': {'evaluations': 1000},
 }
 
 UID_FNS = [kinds.node, kinds.node2, kinds.posnode]
@@ -50,7 +50,7 @@ ROOT_FNS = [kinds.node, kinds.target3, kinds.PosInit, kinds.Leaf, kinds.DC, kind
 
 
 def plan(tier):
-  n = 400 if tier == 'quick' else 6000
+  n = 400 if tier == 'quick' else 30000
   return [{'name': f'p{i}', 'kind': 'main', 'n': n, 'start': i * n} for i in range(16)]
 
 
